@@ -12,14 +12,18 @@ DevCo == {"CoroutineNoHook"}
 DevHookCtl == {"HookControlExported"}
 DevNested == {"NestedInvokeResetsHook"}
 DevInBand == {"NestedTimeoutInBand"}
+DevXh == {"XpcallHandlerRunsInHook"}
+DevEnvNil == {"EnvStackHelperAcceptsNil"}
 
 BodiesAll == AllBodies
 BodiesTight == {"tight"}
 BodiesTwo == {"tight", "deeprec"}
 BodiesThree == {"tight", "deeprec", "invloop"}
-KindsAll == AllKinds
-\* the three ways into a nested invocation are one kind for the machine: model checking takes one
-KindsMC == AllKinds \ {"ninvt", "ninvx"}
+KindsAll == CoreKinds
+\* the three ways into a nested invocation are one kind for the machine: model checking takes one; likewise one
+\* of the transparent positions (a metamethod) and two helper calls (the one a deviation is about, one other)
+KindsMC == (CoreKinds \ {"ninvt", "ninvx"}) \cup HandlerKinds \cup {"mts", HC("_python_append_env", "nil"), HC("_save_mod", "table")}
+KindsMC3 == (CoreKinds \ {"ninvt", "ninvx"}) \cup {"xhe", "xht", HC("_python_append_env", "nil")}
 KindsCore == {"pcall", "ploop", "cowrap", "ninv"}
 \* family "where the non-terminating code runs": wrapper lists that contain a nested invocation
 KindsNest == {"pcall", "ploop", "xlooph", "cowrap", "ninv", "ninvt"}
@@ -31,8 +35,37 @@ SeqsUpTo(S, n) ==
   ELSE LET P == SeqsUpTo(S, n - 1) IN
        P \cup {Append(p, k) : p \in {q \in P : Len(q) = n - 1}, k \in S}
 
-Programs == {[body |-> b, wrap |-> w] : b \in Bodies, w \in SeqsUpTo(Kinds, MaxDepth)}
+\* quick model checking: every program over the core kinds, and the programs that contain a handler position /
+\* the helper call a deviation is about alone or next to a protected call, a loop, a coroutine, a nested invocation
+\* (the thorough tier takes all of KindsMC at depth 2 and KindsMC3 at depth 3)
+KindsMCQ == (CoreKinds \ {"ninvt", "ninvx"}) \cup HandlerKinds \cup {HC("_python_append_env", "nil")}
+MCQOk(w) == \A i \in DOMAIN w : w[i] \notin CoreKinds => \A j \in DOMAIN w : w[j] \notin CoreKinds \/ w[j] \in {"pcall", "ploop", "cowrap", "ninv"}
+ProgramsMCQ == {q \in {[body |-> b, wrap |-> w] : b \in Bodies, w \in SeqsUpTo(Kinds, MaxDepth)} : WellFormed(q.body, q.wrap) /\ MCQOk(q.wrap)}
+Programs == {q \in {[body |-> b, wrap |-> w] : b \in Bodies, w \in SeqsUpTo(Kinds, MaxDepth)} : WellFormed(q.body, q.wrap)}
 ProgramsNested == {q \in Programs : Len(q.wrap) = MaxDepth /\ \E i \in DOMAIN q.wrap : q.wrap[i] \in NestedKinds}
+
+\* family "where the endless code sits relative to a protected call": in the message handler of an xpcall (entered
+\* for an ordinary error / for the time limit error in the hook / for the time limit error handed on by a coroutine's
+\* resumer), in a metamethod, in code run by _lua_invoke itself, in the resumer of a suspended coroutine; the handler
+\* positions also under a protected call, a catch-and-continue loop, in a coroutine, in a nested invocation
+BodiesWhere == {"tight", "deeprec"}
+OuterWhere == {"pcall", "ploop", "cowrap", "ninv"}
+ProgramsWhere ==
+  {q \in {[body |-> b, wrap |-> <<k>>] : b \in Bodies, k \in WhereKinds} : WellFormed(q.body, q.wrap)}
+  \cup (IF MaxDepth < 2 THEN {} ELSE
+         {[body |-> b, wrap |-> <<o, h>>] : b \in Bodies \cap {"tight"}, o \in OuterWhere, h \in {"xhe", "xht"}})
+\* thorough: every body under every where-kind, and the where-kinds with one more wrapper on either side (body tight)
+KindsW == (CoreKinds \ {"ninvt", "ninvx", "xpcallh", "xlooph", "rearm"}) \cup WhereKinds
+ProgramsWhereT ==
+  {q \in Programs : /\ \E i \in DOMAIN q.wrap : q.wrap[i] \in WhereKinds
+                    /\ Len(q.wrap) = 2 => q.body = "tight"}
+\* family "bookkeeping helpers as control wrappers": every helper of the live module environment x every value class
+BodiesHelper == {"tight"}
+BodiesHelperT == {"tight", "lib"}
+ProgramsHelpers ==
+  {[body |-> b, wrap |-> <<k>>] : b \in Bodies, k \in HelperKinds}
+  \cup (IF MaxDepth < 2 THEN {} ELSE
+         {[body |-> "tight", wrap |-> <<HC(h, "nil"), o>>] : h \in HelperNames, o \in {"pcall", "ploop", "cowrap", "xhe"}})
 
 \* single programs for the demonstration configurations
 P(b, w) == {[body |-> b, wrap |-> w]}
@@ -45,6 +78,10 @@ P_deeploop == P("deeprec", <<"ploop">>)
 P_ninv == P("tight", <<"ninv">>)
 P_ploop_ninv == P("tight", <<"ploop", "ninv">>)
 P_invloop == P("invloop", <<>>)
+P_xht == P("tight", <<"xht">>)
+P_xhe == P("tight", <<"xhe">>)
+P_xht_deeprec == P("deeprec", <<"xht">>)
+P_envnil == P("tight", <<HC("_python_append_env", "nil")>>)
 
 Spec == LTInit(Progs) /\ [][LTNext]_vars /\ Fair
 =============================================================================
